@@ -54,6 +54,7 @@ Proof. unfold dedup. destruct (dedup_acc_spec [] l) as [_ H]. rewrite H. simpl. 
 
 
 Section Param.
+Set Default Proof Using "Type".
 Variable G : Type.                       (* non-parametric gates *)
 Variable K : Type.                       (* coefficients / angles *)
 Variables (kadd kmul : K -> K -> K) (k0 k1 : K).
@@ -90,11 +91,6 @@ Definition add_pg (c : lmc) (k : pkind) (qs : list nat) (f : afun) (out : pid) :
   if forallb (fun p => memb p (ins c)) (fparams f)
   then Some (mkLM (nq c) (ins c) (outs c ++ [out]) ((out, f) :: pmap c) (body c ++ [PG k qs out]))
   else None.
-(* extend with a parametric circuit: LinearParameterMapping.combine + primitive extend *)
-Definition extend_c (c d : lmc) : option lmc :=
-  if Nat.eqb (nq c) (nq d)
-  then Some (mkLM (nq c) (dedup (ins c ++ ins d)) (outs c ++ outs d) (pmap d ++ pmap c) (body c ++ body d))
-  else None.
 Definition empty_c (n : nat) : lmc := mkLM n [] [] [] [].
 (* a parametric gate of an UnboundParametricQuantumCircuit: its parameter is both in and out *)
 Definition add_unbound_pg (c : lmc) (k : pkind) (qs : list nat) (p : pid) : lmc :=
@@ -123,6 +119,37 @@ Definition s_empty (n : nat) : sc := mkS n [] [].
 Definition s_add_unbound_pg (c : sc) (k : pkind) (qs : list nat) (p : pid) : sc :=
   mkS (snq c) (sins c ++ [p]) (sgates c ++ [RRot k qs (Alias p)]).
 
+(* ---- rebuilding from abstract gates through the public operations: what the parametric transpilers
+   do, and what extend does for a circuit that shares gate parameters with the receiver *)
+Fixpoint build (ret : lmc) (items : list rgate) (next : pid) : option (lmc * pid) :=
+  match items with
+  | [] => Some (ret, next)
+  | RFixed g :: r => build (add_fixed ret g) r next
+  | RRot k qs f :: r =>
+      match add_pg ret k qs f next with
+      | Some ret' => build ret' r (S next)
+      | None => None
+      end
+  end.
+Definition closed (ps : list pid) (items : list rgate) : Prop :=
+  forall k qs f, In (RRot k qs f) items -> forall p, In p (fparams f) -> In p ps.
+Fixpoint count_rots (items : list rgate) : nat :=
+  match items with [] => 0 | RFixed _ :: r => count_rots r | RRot _ _ _ :: r => S (count_rots r) end.
+
+Definition disjointb (a b : list pid) : bool := forallb (fun p => negb (memb p b)) a.
+(* extend with a parametric circuit.  Disjoint gate parameters: LinearParameterMapping.combine + primitive
+   extend.  Shared gate parameters (a circuit and a copy of itself): the gates of the other circuit are
+   re-added with their functions, so that each gets its own gate parameter. *)
+Definition extend_c (c d : lmc) (next : pid) : option lmc :=
+  if Nat.eqb (nq c) (nq d) then
+    if disjointb (outs c) (outs d)
+    then Some (mkLM (nq c) (dedup (ins c ++ ins d)) (outs c ++ outs d) (pmap d ++ pmap c) (body c ++ body d))
+    else match build (mkLM (nq c) (dedup (ins c ++ ins d)) (outs c) (pmap c) (body c)) (sgates (abs d)) next with
+         | Some (c', _) => Some c'
+         | None => None
+         end
+  else None.
+
 (* ---- binding *)
 Inductive bgate := BFixed (g : G) | BRot (k : pkind) (qs : list nat) (angle : K).
 Definition bind_gate (env : pid -> K) (g : rgate) : bgate :=
@@ -142,20 +169,20 @@ Definition bind (c : lmc) (vals : list K) : list bgate :=
                 | PG k qs out => BRot k qs (match lookup out (pmap c) with Some f => eval env f | None => k0 end)
                 end) (body c).
 
-(* ---- invariants of one circuit *)
+(* ---- invariant of one circuit *)
 Definition keys (m : list (pid * afun)) : list pid := map fst m.
 Definition body_outs (b : list pgate) : list pid :=
   flat_map (fun g => match g with Fixed _ => [] | PG _ _ o => [o] end) b.
-Definition cinv (c : lmc) : Prop :=
-  (forall o, In o (body_outs (body c)) -> exists f, lookup o (pmap c) = Some f)
-  /\ NoDup (ins c)
-  /\ (forall o f, In (o, f) (pmap c) -> forall p, In p (fparams f) -> In p (ins c)).
+Record cinv (c : lmc) : Prop := mkCinv {
+  ci_lookup : forall o, In o (outs c) -> exists f, lookup o (pmap c) = Some f;
+  ci_ins : NoDup (ins c);
+  ci_closed : forall o f, In (o, f) (pmap c) -> forall p, In p (fparams f) -> In p (ins c);
+  ci_outs : outs c = body_outs (body c);       (* out_params are the gate parameters, in gate order *)
+  ci_nodup : NoDup (outs c);                   (* every parametric gate has its own gate parameter *)
+  ci_keys : forall o, In o (keys (pmap c)) -> In o (outs c) }.
 (* all parameter identities of a circuit are below the allocation counter *)
 Definition below (n : pid) (c : lmc) : Prop :=
-  (forall p, In p (ins c) -> p < n) /\ (forall o, In o (keys (pmap c)) -> o < n).
-(* the same out parameter never stands for two functions, across all live circuits *)
-Definition consistent (c d : lmc) : Prop :=
-  forall o f f', In (o, f) (pmap c) -> In (o, f') (pmap d) -> f = f'.
+  (forall p, In p (ins c) -> p < n) /\ (forall o, In o (outs c) -> o < n).
 
 Lemma lookup_in o m f : lookup o m = Some f -> In (o, f) m.
 Proof.
@@ -167,6 +194,11 @@ Proof.
   induction m as [|[o' f'] m IH]; simpl; [intros _ []|].
   destruct (Nat.eqb_spec o o') as [->|Hne]; [discriminate|]. intros H [E|Hin]; [congruence | apply IH; auto].
 Qed.
+Lemma lookup_notin o m : ~ In o (keys m) -> lookup o m = None.
+Proof.
+  induction m as [|[o' f'] m IH]; simpl; [reflexivity|]. intros H.
+  destruct (Nat.eqb_spec o o') as [->|Hne]; [exfalso; apply H; left; reflexivity|apply IH; intros Hc; apply H; right; exact Hc].
+Qed.
 Lemma in_keys o f m : In (o, f) m -> In o (keys m).
 Proof. intros H. apply (in_map fst) in H. exact H. Qed.
 Lemma lookup_app o m1 m2 : lookup o (m1 ++ m2) = match lookup o m1 with Some f => Some f | None => lookup o m2 end.
@@ -175,7 +207,29 @@ Proof. induction m1 as [|[o' f'] m1 IH]; simpl; [reflexivity|]. destruct (Nat.eq
 Lemma body_outs_app a b : body_outs (a ++ b) = body_outs a ++ body_outs b.
 Proof. unfold body_outs. apply flat_map_app. Qed.
 
-(* resolving through a larger, consistent mapping gives the same functions *)
+Lemma NoDup_app_intro' {A} (l1 l2 : list A) :
+  NoDup l1 -> NoDup l2 -> (forall x, In x l1 -> In x l2 -> False) -> NoDup (l1 ++ l2).
+Proof.
+  induction l1 as [|a l1 IH]; intros H1 H2 Hd; simpl; [exact H2|].
+  inversion H1 as [|? ? Ha H1']; subst. constructor.
+  - intros Hin. apply in_app_or in Hin. destruct Hin as [Hin|Hin]; [contradiction|]. apply (Hd a); simpl; auto.
+  - apply IH; auto. intros x Hx1 Hx2. apply (Hd x); simpl; auto.
+Qed.
+Lemma NoDup_snoc {A} (l : list A) x : NoDup l -> ~ In x l -> NoDup (l ++ [x]).
+Proof.
+  intros H Hx. apply NoDup_app_intro'; auto; [constructor; [intros []|constructor]|].
+  intros y Hy [<-|[]]. contradiction.
+Qed.
+Lemma in_snoc {A} (l : list A) x y : In y (l ++ [x]) <-> In y l \/ y = x.
+Proof. rewrite in_app_iff. simpl. split; intros [H|H]; auto. destruct H as [H|[]]; auto. Qed.
+
+Lemma disjointb_spec a b : disjointb a b = true -> forall o, In o a -> ~ In o b.
+Proof.
+  unfold disjointb. rewrite forallb_forall. intros H o Ha Hb. specialize (H o Ha).
+  apply negb_true_iff in H. assert (memb o b = true) by (apply memb_In; exact Hb). congruence.
+Qed.
+
+(* resolving through a mapping that agrees on the gate parameters of the body gives the same functions *)
 Lemma resolve_ext m m' b :
   (forall o, In o (body_outs b) -> lookup o m' = lookup o m) -> map (resolve m') b = map (resolve m) b.
 Proof.
@@ -184,51 +238,195 @@ Proof.
   - apply IH. intros o Ho. apply H. destruct g; simpl; auto.
 Qed.
 
-(* ---- each concrete operation refines the abstract one *)
+Lemma fresh_out c n : below n c -> ~ In n (outs c).
+Proof. intros [_ B] H. apply B in H. lia. Qed.
+Lemma fresh_in c n : below n c -> ~ In n (ins c).
+Proof. intros [A _] H. apply A in H. lia. Qed.
+
+Lemma cinv_empty n : cinv (empty_c n).
+Proof. constructor; simpl; [intros o []|constructor|intros o f []|reflexivity|constructor|intros o []]. Qed.
+
+(* ---- each concrete operation refines the abstract one and keeps the invariant *)
 Lemma abs_add_params c ps : abs (add_params c ps) = s_add_params (abs c) ps.
 Proof. reflexivity. Qed.
+Lemma cinv_add_params c ps : cinv c -> NoDup ps -> (forall p, In p ps -> ~ In p (ins c)) -> cinv (add_params c ps).
+Proof.
+  intros [A B C D E F] Hps Hd. constructor; simpl; auto.
+  - apply NoDup_app_intro'; auto. intros x Hx Hy. exact (Hd x Hy Hx).
+  - intros o f Hof p Hp. apply in_or_app. left. exact (C o f Hof p Hp).
+Qed.
+
 Lemma abs_add_fixed c g : abs (add_fixed c g) = s_add_fixed (abs c) g.
 Proof. unfold abs, add_fixed, s_add_fixed. simpl. rewrite map_app. reflexivity. Qed.
-
-Lemma abs_add_pg c k qs f out c' : ~ In out (keys (pmap c)) -> cinv c ->
-  add_pg c k qs f out = Some c' -> s_add_pg (abs c) k qs f = Some (abs c').
+Lemma cinv_add_fixed c g : cinv c -> cinv (add_fixed c g).
 Proof.
-  intros Hfresh [Hb _]. unfold add_pg, s_add_pg. simpl. destruct (forallb _ (fparams f)); [|discriminate].
-  intros [= <-]. unfold abs. simpl. f_equal. f_equal. rewrite map_app. simpl. rewrite Nat.eqb_refl. f_equal.
-  apply resolve_ext. intros o Ho. simpl. destruct (Nat.eqb_spec o out) as [->|Hne]; [|reflexivity].
-  exfalso. destruct (Hb out Ho) as [f0 Hf0]. apply Hfresh. apply (in_keys out f0). apply lookup_in. exact Hf0.
+  intros [A B C D E F]. constructor; simpl; auto. rewrite body_outs_app. simpl. rewrite app_nil_r. exact D.
+Qed.
+
+Lemma add_pg_shape c k qs f out c' : add_pg c k qs f out = Some c' ->
+  c' = mkLM (nq c) (ins c) (outs c ++ [out]) ((out, f) :: pmap c) (body c ++ [PG k qs out])
+  /\ (forall p, In p (fparams f) -> In p (ins c)).
+Proof.
+  unfold add_pg. destruct (forallb _ (fparams f)) eqn:E; [|discriminate]. intros [= <-]. split; [reflexivity|].
+  intros p Hp. rewrite forallb_forall in E. apply memb_In. apply E. exact Hp.
+Qed.
+Lemma add_pg_some c k qs f out : (forall p, In p (fparams f) -> In p (ins c)) ->
+  add_pg c k qs f out = Some (mkLM (nq c) (ins c) (outs c ++ [out]) ((out, f) :: pmap c) (body c ++ [PG k qs out])).
+Proof.
+  intros H. unfold add_pg. replace (forallb (fun p => memb p (ins c)) (fparams f)) with true; [reflexivity|].
+  symmetry. apply forallb_forall. intros p Hp. apply memb_In. auto.
+Qed.
+
+Lemma lookup_cons_other o out f m : o <> out -> lookup o ((out, f) :: m) = lookup o m.
+Proof. intros H. simpl. destruct (Nat.eqb_spec o out); [contradiction|reflexivity]. Qed.
+
+Lemma add_pg_ok c k qs f out c' : cinv c -> ~ In out (outs c) -> add_pg c k qs f out = Some c' ->
+  s_add_pg (abs c) k qs f = Some (abs c') /\ cinv c'.
+Proof.
+  intros Hc Hfresh H. destruct (add_pg_shape _ _ _ _ _ _ H) as [-> Hf]. destruct Hc as [A B C D E F]. split.
+  - unfold add_pg in H. unfold s_add_pg. simpl. destruct (forallb _ (fparams f)); [|discriminate].
+    unfold abs. simpl. f_equal. f_equal. rewrite map_app. simpl. rewrite Nat.eqb_refl. f_equal.
+    apply resolve_ext. intros o Ho. symmetry. apply lookup_cons_other. intros ->. apply Hfresh. rewrite D. exact Ho.
+  - constructor; simpl.
+    + intros o Ho. apply in_snoc in Ho. destruct (Nat.eqb_spec o out) as [->|Hne]; [exists f; reflexivity|].
+      destruct Ho as [Ho|Ho]; [apply A; exact Ho|contradiction].
+    + exact B.
+    + intros o f' [E'|Hin] p Hp; [injection E' as <- <-; apply Hf; exact Hp|exact (C o f' Hin p Hp)].
+    + rewrite body_outs_app, D. reflexivity.
+    + apply NoDup_snoc; auto.
+    + intros o [<-|Ho]; apply in_snoc; [right; reflexivity|left; apply F; exact Ho].
 Qed.
 Lemma add_pg_none c k qs f out : add_pg c k qs f out = None -> s_add_pg (abs c) k qs f = None.
 Proof. unfold add_pg, s_add_pg. simpl. destruct (forallb _ (fparams f)); [discriminate|reflexivity]. Qed.
 
-Lemma abs_extend c d c' : cinv c -> cinv d -> consistent c d ->
-  extend_c c d = Some c' -> s_extend (abs c) (abs d) = Some (abs c').
+Lemma add_unbound_pg_ok c k qs p : cinv c -> ~ In p (outs c) -> ~ In p (ins c) ->
+  abs (add_unbound_pg c k qs p) = s_add_unbound_pg (abs c) k qs p /\ cinv (add_unbound_pg c k qs p).
 Proof.
-  intros [Hbc _] [Hbd _] Hcons. unfold extend_c, s_extend. simpl. destruct (Nat.eqb (nq c) (nq d)); [|discriminate].
-  intros [= <-]. unfold abs. simpl. f_equal. f_equal. rewrite map_app. f_equal.
-  - apply resolve_ext. intros o Ho. rewrite lookup_app. destruct (lookup o (pmap d)) as [f'|] eqn:Ed; [|reflexivity].
-    destruct (Hbc o Ho) as [f Hf]. rewrite Hf. f_equal. apply (Hcons o f f'); apply lookup_in; assumption.
-  - apply resolve_ext. intros o Ho. rewrite lookup_app. destruct (Hbd o Ho) as [f Hf]. rewrite Hf. reflexivity.
+  intros [A B C D E F] Ho Hi. split.
+  - unfold abs, add_unbound_pg, s_add_unbound_pg. simpl. f_equal. rewrite map_app. simpl. rewrite Nat.eqb_refl. f_equal.
+    apply resolve_ext. intros o Hbo. apply lookup_cons_other. intros ->. apply Ho. rewrite D. exact Hbo.
+  - constructor; simpl.
+    + intros o Hin. apply in_snoc in Hin. destruct (Nat.eqb_spec o p) as [->|Hne]; [exists (Alias p); reflexivity|].
+      destruct Hin as [Hin|Hin]; [apply A; exact Hin|contradiction].
+    + apply NoDup_snoc; auto.
+    + intros o f' [E'|Hin] q Hq.
+      * injection E' as <- <-. simpl in Hq. destruct Hq as [<-|[]]. apply in_snoc. right. reflexivity.
+      * apply in_snoc. left. exact (C o f' Hin q Hq).
+    + rewrite body_outs_app, D. reflexivity.
+    + apply NoDup_snoc; auto.
+    + intros o [<-|Hk]; apply in_snoc; [right; reflexivity|left; apply F; exact Hk].
 Qed.
-Lemma extend_none c d : extend_c c d = None -> s_extend (abs c) (abs d) = None.
-Proof. unfold extend_c, s_extend. simpl. destruct (Nat.eqb (nq c) (nq d)); [discriminate|reflexivity]. Qed.
 
-Lemma abs_add_unbound_pg c k qs p : ~ In p (keys (pmap c)) -> cinv c ->
-  abs (add_unbound_pg c k qs p) = s_add_unbound_pg (abs c) k qs p.
+Lemma build_ok items : forall ret next,
+  cinv ret -> (forall o, In o (outs ret) -> o < next) -> closed (ins ret) items ->
+  exists ret', build ret items next = Some (ret', next + count_rots items)
+    /\ abs ret' = mkS (nq ret) (ins ret) (sgates (abs ret) ++ items)
+    /\ cinv ret' /\ ins ret' = ins ret
+    /\ (forall o, In o (outs ret') -> In o (outs ret) \/ next <= o < next + count_rots items).
 Proof.
-  intros Hfresh [Hb _]. unfold abs, add_unbound_pg, s_add_unbound_pg. simpl. f_equal.
-  rewrite map_app. simpl. rewrite Nat.eqb_refl. f_equal.
-  apply resolve_ext. intros o Ho. simpl. destruct (Nat.eqb_spec o p) as [->|Hne]; [|reflexivity].
-  exfalso. destruct (Hb p Ho) as [f0 Hf0]. apply Hfresh. apply (in_keys p f0). apply lookup_in. exact Hf0.
+  induction items as [|it items IH]; intros ret next Hc Hk Hcl.
+  - exists ret. simpl. rewrite Nat.add_0_r, app_nil_r. split; [reflexivity|]. split; [reflexivity|].
+    split; [exact Hc|]. split; [reflexivity|]. intros o Ho; left; exact Ho.
+  - destruct it as [g|k qs f]; simpl.
+    + destruct (IH (add_fixed ret g) next (cinv_add_fixed ret g Hc) Hk) as [ret' [Hb [Ha [Hi [Hins He]]]]].
+      * intros k qs f Hin. apply (Hcl k qs f). right. exact Hin.
+      * exists ret'. split; [exact Hb|]. split; [|split; [exact Hi|split; [exact Hins|exact He]]].
+        rewrite Ha. simpl. rewrite map_app, <- app_assoc. reflexivity.
+    + assert (Hf : forall p, In p (fparams f) -> In p (ins ret)) by (apply (Hcl k qs f); left; reflexivity).
+      destruct (add_pg ret k qs f next) as [ret1|] eqn:Ea; [|rewrite (add_pg_some ret k qs f next Hf) in Ea; discriminate].
+      destruct (add_pg_shape _ _ _ _ _ _ Ea) as [Er _].
+      assert (Hfresh : ~ In next (outs ret)) by (intros Hin; apply Hk in Hin; lia).
+      destruct (add_pg_ok ret k qs f next ret1 Hc Hfresh Ea) as [Hs Hc1].
+      assert (Hab : abs ret1 = mkS (nq ret) (ins ret) (sgates (abs ret) ++ [RRot k qs f])).
+      { unfold s_add_pg in Hs. destruct (forallb _ (fparams f)); [|discriminate].
+        change (Some (mkS (nq ret) (ins ret) (sgates (abs ret) ++ [RRot k qs f])) = Some (abs ret1)) in Hs. congruence. }
+      assert (Hn1 : nq ret1 = nq ret /\ ins ret1 = ins ret /\ outs ret1 = outs ret ++ [next]) by (rewrite Er; auto).
+      destruct Hn1 as [Hn1 [Hi1 Ho1]].
+      destruct (IH ret1 (S next) Hc1) as [ret' [Hb [Ha [Hi [Hins He]]]]].
+      * rewrite Ho1. intros o Ho. apply in_snoc in Ho. destruct Ho as [Ho| ->]; [apply Hk in Ho; lia|lia].
+      * rewrite Hi1. intros k' qs' f' Hin. apply (Hcl k' qs' f'). right. exact Hin.
+      * exists ret'. replace (next + S (count_rots items)) with (S next + count_rots items) by lia.
+        split; [exact Hb|]. split; [|split; [exact Hi|split; [congruence|]]].
+        -- rewrite Ha, Hab, Hn1, Hi1. simpl. rewrite <- app_assoc. reflexivity.
+        -- intros o Hin. rewrite Ho1 in He. destruct (He o Hin) as [H|H]; [|right; lia].
+           apply in_snoc in H. destruct H as [H| ->]; [left; exact H|right; lia].
+Qed.
+
+Lemma abs_closed c : cinv c -> closed (ins c) (sgates (abs c)).
+Proof.
+  intros Hc k qs f Hin p Hp. unfold abs in Hin. simpl in Hin. apply in_map_iff in Hin.
+  destruct Hin as [[g|k' qs' o] [E Hg]]; simpl in E; [discriminate|]. injection E as _ _ E.
+  destruct (lookup o (pmap c)) as [f0|] eqn:El; subst f; [|simpl in Hp; contradiction].
+  exact (ci_closed c Hc o f0 (lookup_in _ _ _ El) p Hp).
+Qed.
+Lemma closed_mono ps ps' items : (forall p, In p ps -> In p ps') -> closed ps items -> closed ps' items.
+Proof. intros H Hc k qs f Hin p Hp. apply H. exact (Hc k qs f Hin p Hp). Qed.
+
+Lemma count_rots_abs c : count_rots (sgates (abs c)) = length (body_outs (body c)).
+Proof. unfold abs. simpl. induction (body c) as [|[g|k qs o] b IH]; simpl; auto. Qed.
+
+Lemma extend_ok c d next c' : cinv c -> cinv d -> (forall o, In o (outs c) -> o < next) ->
+  extend_c c d next = Some c' ->
+  s_extend (abs c) (abs d) = Some (abs c') /\ cinv c' /\ ins c' = dedup (ins c ++ ins d)
+  /\ (forall o, In o (outs c') -> In o (outs c) \/ In o (outs d) \/ next <= o < next + count_rots (sgates (abs d))).
+Proof.
+  intros Hc Hd Hk. unfold extend_c, s_extend. change (snq (abs c)) with (nq c). change (snq (abs d)) with (nq d).
+  destruct (Nat.eqb (nq c) (nq d)); [|discriminate].
+  destruct (disjointb (outs c) (outs d)) eqn:Edj.
+  - intros [= <-]. pose proof (disjointb_spec _ _ Edj) as Hdj.
+    destruct Hc as [Ac Bc Cc Dc Ec Fc]. destruct Hd as [Ad Bd Cd Dd Ed Fd]. split; [|split; [|split]].
+    + unfold abs. simpl. f_equal. f_equal. rewrite map_app. f_equal.
+      * apply resolve_ext. intros o Ho. rewrite lookup_app. rewrite (lookup_notin o (pmap d)); [reflexivity|].
+        intros Hkd. apply Fd in Hkd. apply (Hdj o); [rewrite Dc; exact Ho|exact Hkd].
+      * apply resolve_ext. intros o Ho. rewrite lookup_app. destruct (Ad o) as [f Hf]; [rewrite Dd; exact Ho|].
+        rewrite Hf. reflexivity.
+    + constructor; simpl.
+      * intros o Ho. rewrite lookup_app. apply in_app_or in Ho.
+        destruct (lookup o (pmap d)) as [f|] eqn:E; [exists f; reflexivity|].
+        destruct Ho as [Ho|Ho]; [apply Ac; exact Ho|]. destruct (Ad o Ho) as [f Hf]. congruence.
+      * apply dedup_NoDup.
+      * intros o f Hin p Hp. apply dedup_In. apply in_or_app. apply in_app_or in Hin.
+        destruct Hin as [Hin|Hin]; [right; exact (Cd o f Hin p Hp)|left; exact (Cc o f Hin p Hp)].
+      * rewrite body_outs_app, Dc, Dd. reflexivity.
+      * apply NoDup_app_intro'; auto; intros x Hx Hy; exact (Hdj x Hx Hy).
+      * intros o Ho. unfold keys in Ho. rewrite map_app in Ho. apply in_or_app. apply in_app_or in Ho.
+        destruct Ho as [Ho|Ho]; [right; apply Fd; exact Ho|left; apply Fc; exact Ho].
+    + reflexivity.
+    + intros o Ho. apply in_app_or in Ho. destruct Ho as [Ho|Ho]; [left|right; left]; exact Ho.
+  - set (ret0 := mkLM (nq c) (dedup (ins c ++ ins d)) (outs c) (pmap c) (body c)).
+    assert (I0 : cinv ret0).
+    { destruct Hc as [Ac Bc Cc Dc Ec Fc]. constructor; simpl; auto; [apply dedup_NoDup|].
+      intros o f Hin p Hp. apply dedup_In. apply in_or_app. left. exact (Cc o f Hin p Hp). }
+    destruct (build_ok (sgates (abs d)) ret0 next I0 Hk) as [r' [Hb [Ha [Ir [Hins He]]]]].
+    + apply (closed_mono (ins d)); [|apply abs_closed; exact Hd]. intros p Hp. simpl. apply dedup_In.
+      apply in_or_app. right. exact Hp.
+    + rewrite Hb. intros [= <-]. split; [|split; [exact Ir|split; [exact Hins|]]].
+      * rewrite Ha. reflexivity.
+      * intros o Ho. destruct (He o Ho) as [H|H]; [left; exact H|right; right; exact H].
+Qed.
+Lemma extend_none c d next : cinv c -> cinv d -> (forall o, In o (outs c) -> o < next) ->
+  extend_c c d next = None -> s_extend (abs c) (abs d) = None.
+Proof.
+  intros Hc Hd Hk. unfold extend_c, s_extend. change (snq (abs c)) with (nq c). change (snq (abs d)) with (nq d).
+  destruct (Nat.eqb (nq c) (nq d)); [|reflexivity].
+  destruct (disjointb (outs c) (outs d)); [discriminate|].
+  set (ret0 := mkLM (nq c) (dedup (ins c ++ ins d)) (outs c) (pmap c) (body c)).
+  assert (I0 : cinv ret0).
+  { destruct Hc as [Ac Bc Cc Dc Ec Fc]. constructor; simpl; auto; [apply dedup_NoDup|].
+    intros o f Hin p Hp. apply dedup_In. apply in_or_app. left. exact (Cc o f Hin p Hp). }
+  destruct (build_ok (sgates (abs d)) ret0 next I0 Hk) as [r' [Hb _]].
+  - apply (closed_mono (ins d)); [|apply abs_closed; exact Hd]. intros p Hp. simpl. apply dedup_In.
+    apply in_or_app. right. exact Hp.
+  - rewrite Hb. discriminate.
 Qed.
 
 (* ---- binding evaluates the abstract functions *)
 Theorem bind_is_evaluation c vals : cinv c -> bind c vals = s_bind (env_of (ins c) vals) (abs c).
 Proof.
-  intros [Hb _]. unfold bind, s_bind, abs. simpl. rewrite map_map.
+  intros Hc. unfold bind, s_bind, abs. simpl. rewrite map_map.
   apply map_ext_in. intros g Hg. destruct g as [g|k qs o]; simpl; [reflexivity|].
-  destruct (Hb o) as [f Hf]; [|rewrite Hf; reflexivity].
-  unfold body_outs. apply in_flat_map. exists (PG k qs o). split; [exact Hg|left; reflexivity].
+  destruct (ci_lookup c Hc o) as [f Hf]; [|rewrite Hf; reflexivity].
+  rewrite (ci_outs c Hc). unfold body_outs. apply in_flat_map. exists (PG k qs o). split; [exact Hg|left; reflexivity].
 Qed.
 
 (* positional values: with distinct in-parameters, the i-th value is what the i-th parameter evaluates to *)
@@ -251,86 +449,9 @@ Proof.
   - rewrite (H p) by (simpl; left; reflexivity). apply IH. intros q Hq. apply H. simpl. right. exact Hq.
   - apply IH. intros q Hq. apply H. simpl. exact Hq.
 Qed.
-
-(* ---- rebuilding a circuit from abstract gates, as the parametric transpilers do: a new circuit over
-   the same in-parameters, gates added one by one through the public operations *)
-Fixpoint build (ret : lmc) (items : list rgate) (next : pid) : option (lmc * pid) :=
-  match items with
-  | [] => Some (ret, next)
-  | RFixed g :: r => build (add_fixed ret g) r next
-  | RRot k qs f :: r =>
-      match add_pg ret k qs f next with
-      | Some ret' => build ret' r (S next)
-      | None => None
-      end
-  end.
-Definition closed (ps : list pid) (items : list rgate) : Prop :=
-  forall k qs f, In (RRot k qs f) items -> forall p, In p (fparams f) -> In p ps.
-Fixpoint count_rots (items : list rgate) : nat :=
-  match items with [] => 0 | RFixed _ :: r => count_rots r | RRot _ _ _ :: r => S (count_rots r) end.
-
-Definition functional (m : list (pid * afun)) : Prop := forall o f f', In (o, f) m -> In (o, f') m -> f = f'.
-
-Lemma build_ok items : forall ret next,
-  cinv ret -> (forall o, In o (keys (pmap ret)) -> o < next) -> closed (ins ret) items -> functional (pmap ret) ->
-  exists ret', build ret items next = Some (ret', next + count_rots items)
-    /\ abs ret' = mkS (nq ret) (ins ret) (sgates (abs ret) ++ items)
-    /\ cinv ret' /\ ins ret' = ins ret
-    /\ (forall o f, In (o, f) (pmap ret') -> In (o, f) (pmap ret) \/ next <= o < next + count_rots items)
-    /\ functional (pmap ret').
-Proof.
-  induction items as [|it items IH]; intros ret next Hc Hk Hcl Hfun.
-  - exists ret. simpl. rewrite Nat.add_0_r, app_nil_r. destruct Hc as [A [B C]]. repeat split; auto.
-  - destruct it as [g|k qs f]; simpl.
-    + destruct (IH (add_fixed ret g) next) as [ret' [Hb [Ha [Hi [Hins [He Hfn]]]]]].
-      * destruct Hc as [A BC]. split; [|exact BC]. intros o Ho. simpl in Ho. rewrite body_outs_app in Ho.
-        apply in_app_or in Ho. destruct Ho as [Ho|Ho]; [apply A; exact Ho|simpl in Ho; contradiction].
-      * exact Hk.
-      * intros k qs f Hin. apply (Hcl k qs f). right. exact Hin.
-      * exact Hfun.
-      * exists ret'. split; [exact Hb|]. split; [|split; [exact Hi|split; [exact Hins|split; [exact He|exact Hfn]]]].
-        rewrite Ha. simpl. rewrite map_app, <- app_assoc. reflexivity.
-    + assert (Hf : forall p, In p (fparams f) -> In p (ins ret)) by (apply (Hcl k qs f); left; reflexivity).
-      assert (Ea : add_pg ret k qs f next
-                   = Some (mkLM (nq ret) (ins ret) (outs ret ++ [next]) ((next, f) :: pmap ret) (body ret ++ [PG k qs next]))).
-      { unfold add_pg. replace (forallb (fun p => memb p (ins ret)) (fparams f)) with true; [reflexivity|].
-        symmetry. apply forallb_forall. intros p Hp. apply memb_In. auto. }
-      remember (mkLM (nq ret) (ins ret) (outs ret ++ [next]) ((next, f) :: pmap ret) (body ret ++ [PG k qs next])) as ret1 eqn:Er.
-      rewrite Ea.
-      assert (Hfresh : ~ In next (keys (pmap ret))) by (intros Hin; apply Hk in Hin; lia).
-      assert (Hc1 : cinv ret1).
-      { rewrite Er. destruct Hc as [A [B C]]. split; [|split; [exact B|]]; simpl.
-        - intros o Ho. rewrite body_outs_app in Ho. apply in_app_or in Ho.
-          destruct (Nat.eqb_spec o next) as [->|Hne]; [exists f; reflexivity|].
-          destruct Ho as [Ho|Ho]; [apply A; exact Ho|]. simpl in Ho. destruct Ho as [E|[]]. congruence.
-        - intros o f' [E|Hin] p Hp; [injection E as <- <-; apply Hf; exact Hp|exact (C o f' Hin p Hp)]. }
-      assert (Hab : abs ret1 = mkS (nq ret) (ins ret) (sgates (abs ret) ++ [RRot k qs f])).
-      { pose proof (abs_add_pg ret k qs f next ret1 Hfresh Hc Ea) as H. unfold s_add_pg in H.
-        destruct (forallb _ (fparams f)); [|discriminate].
-        change (Some (mkS (nq ret) (ins ret) (sgates (abs ret) ++ [RRot k qs f])) = Some (abs ret1)) in H. congruence. }
-      assert (Hn1 : nq ret1 = nq ret /\ ins ret1 = ins ret /\ pmap ret1 = (next, f) :: pmap ret) by (rewrite Er; auto).
-      destruct Hn1 as [Hn1 [Hi1 Hp1]].
-      destruct (IH ret1 (S next)) as [ret' [Hb [Ha [Hi [Hins [He Hfn]]]]]].
-      * exact Hc1.
-      * rewrite Hp1. simpl. intros o [<-|Ho]; [lia|apply Hk in Ho; lia].
-      * rewrite Hi1. intros k' qs' f' Hin. apply (Hcl k' qs' f'). right. exact Hin.
-      * rewrite Hp1. intros o f1 f2 [E1|H1] [E2|H2].
-        -- congruence.
-        -- exfalso. injection E1 as <- <-. apply Hfresh. exact (in_keys _ _ _ H2).
-        -- exfalso. injection E2 as <- <-. apply Hfresh. exact (in_keys _ _ _ H1).
-        -- exact (Hfun o f1 f2 H1 H2).
-      * exists ret'. replace (next + S (count_rots items)) with (S next + count_rots items) by lia.
-        split; [exact Hb|]. split; [|split; [exact Hi|split; [congruence|split; [|exact Hfn]]]].
-        -- rewrite Ha, Hab, Hn1, Hi1. simpl. rewrite <- app_assoc. reflexivity.
-        -- intros o f' Hin. rewrite Hp1 in He.
-           destruct (He o f' Hin) as [[E|H]|H]; [injection E as <- <-; right; lia|left; exact H|right; lia].
-Qed.
-
-Lemma abs_closed c : cinv c -> closed (ins c) (sgates (abs c)).
-Proof.
-  intros [_ [_ C]] k qs f Hin p Hp. unfold abs in Hin. simpl in Hin. apply in_map_iff in Hin.
-  destruct Hin as [[g|k' qs' o] [E Hg]]; simpl in E; [discriminate|]. injection E as _ _ E.
-  destruct (lookup o (pmap c)) as [f0|] eqn:El; subst f; [|simpl in Hp; contradiction].
-  exact (C o f0 (lookup_in _ _ _ El) p Hp).
-Qed.
 End Param.
+
+Arguments RFixed {G K} g.
+Arguments RRot {G K} k qs f.
+Arguments BFixed {G K} g.
+Arguments BRot {G K} k qs angle.
